@@ -206,15 +206,9 @@ def evaluate(spec, S, T, stats):
         for c, d in check_wire(spec, S, T, data, stats):
             fails.append((c, "bytes", d))
     else:
-        # one byte per character (what the decoder assumes) ...
-        try:
-            l1 = frame.encode("latin-1")
-        except UnicodeEncodeError:
-            l1 = None
-        if l1 is not None:
-            for c, d in check_wire(spec, S, T, l1, stats):
-                fails.append((c, "bytes", d))
-        # ... and what the connection really writes
+        # the frame text is judged as the bytes the connection really writes (utf-8); the encoder's
+        # BodyLength / CheckSum are defined over those bytes, a one-byte-per-character rendering of the
+        # same text is not something the library ever puts on a wire
         for c, d in check_wire(spec, S, T, data, stats, one_byte_wire=False):
             d = dict(d)
             d["wire"] = "frame text converted with .encode('utf-8') as send_msg does"
